@@ -388,6 +388,11 @@ func (r *Run) condBroadcast(st *State, fr *Frame, cond T, in ssa.Instruction) {
 		k := "bcast:" + lr.Class + ":" + lr.Base.S
 		st.Counters[k] = App(SInt, "+", r.counter(st, k), IntLit(1))
 		delete(st.Facts, "dirty:"+lr.Class+":"+lr.Base.S)
+		for fk := range st.Facts {
+			if strings.HasPrefix(fk, "dirtyf:"+lr.Class+":") && strings.HasSuffix(fk, ":"+lr.Base.S) {
+				delete(st.Facts, fk)
+			}
+		}
 	}
 }
 
